@@ -3,4 +3,53 @@ import SigV4.Model.CtEq
 
 namespace SigV4
 
+/-- The accumulator ends at zero iff it started at zero and all bytes agree. -/
+theorem ctFold_fst_eq_zero (a b : Bytes) (acc : UInt8) (h : a.length = b.length) :
+    (ctFold a b acc).1 = 0 ↔ acc = 0 ∧ a = b := by
+  induction a generalizing b acc with
+  | nil =>
+    cases b with
+    | nil => simp [ctFold]
+    | cons y ys => simp at h
+  | cons x xs ih =>
+    cases b with
+    | nil => simp at h
+    | cons y ys =>
+      have hl : xs.length = ys.length := by simpa using h
+      simp only [ctFold]
+      rw [ih ys _ hl, UInt8.or_eq_zero_iff, UInt8.xor_eq_zero_iff]
+      constructor
+      · rintro ⟨⟨h1, h2⟩, h3⟩; exact ⟨h1, by rw [h2, h3]⟩
+      · rintro ⟨h1, h2⟩
+        injection h2 with h2 h3
+        exact ⟨⟨h1, h2⟩, h3⟩
+
+/-- The trace of the accumulate loop: one `xorOr` per index of the shorter input. -/
+theorem ctFold_snd (a b : Bytes) (acc : UInt8) :
+    (ctFold a b acc).2 = List.replicate (min a.length b.length) Step.xorOr := by
+  induction a generalizing b acc with
+  | nil => simp [ctFold]
+  | cons x xs ih =>
+    cases b with
+    | nil => simp [ctFold]
+    | cons y ys =>
+      simp only [ctFold, List.length_cons, ih ys]
+      rw [Nat.add_min_add_right, List.replicate_succ]
+
+/-- The trace of `ctEq` as a function of the two lengths only. -/
+theorem ctEq_snd (a b : Bytes) :
+    (ctEq a b).2 =
+      if a.length ≠ b.length then [Step.lenCheck]
+      else Step.lenCheck :: List.replicate (min a.length b.length) Step.xorOr ++ [Step.reduce] := by
+  unfold ctEq
+  split
+  · rfl
+  · simp only [ctFold_snd]
+
+theorem earlyExitEq_prefix (pre a b : Bytes) (x y : UInt8) (hxy : x ≠ y) :
+    (earlyExitEq (pre ++ x :: a) (pre ++ y :: b)).2.length = pre.length + 1 := by
+  induction pre with
+  | nil => simp [earlyExitEq, hxy]
+  | cons p ps ih => simp [earlyExitEq, ih]
+
 end SigV4
